@@ -113,6 +113,7 @@ NOHANDLER_DEFS = """
 (define (deepcall k th) (if (= k 0) (th) (let ((r (deepcall (- k 1) th))) r)))
 (define (calls-foreign . args) (string->number "42"))
 (define s3 (make-string 3 #\\x))
+(define ht69 (let ((t (make-hash-table))) (hash-table-set! t 1 10) (hash-table-set! t 2 20) t))
 """
 
 
@@ -123,6 +124,7 @@ def nohandler_phase(chk, build, sc, space, rng):
     exe = vlib.compile_c(build, os.path.join(vlib.VERIF, "harness", "c", "nohandler.c"), sc.file("nohandler"))
     drv = open(DRIVER).read()
     drv = drv[:drv.rindex("(main (cadr (command-line)))")]
+    drv = "(import (srfi 95) (srfi 69))\n" + drv
     defs = sc.file("nohandler_defs.scm")
     open(defs, "w").write(drv + NOHANDLER_DEFS)
     errs = [c for c, cls in space if cls == "err" and c[0] in ("ref", "set", "car", "arith", "nonproc", "tail", "cur", "arity", "sub")]
@@ -134,7 +136,7 @@ def nohandler_phase(chk, build, sc, space, rng):
         f.write('["reset"]\t(reset!)\n')
         for i, c in enumerate(errs[:n]):
             call = "(perform '%s)" % sexp(c)
-            k = i % 6
+            k = i % 9
             if k == 0:
                 e = call
             elif k == 1:
@@ -145,8 +147,15 @@ def nohandler_phase(chk, build, sc, space, rng):
                 e = "(begin (apply calls-foreign (make-list %d s3)) (apply (lambda args %s) (make-list %d s3)))" % (rng.choice([6000, 3000]), call, rng.choice([7000, 2500, 6500]))
             elif k == 4:
                 e = "(deepcall %d (lambda () (apply (lambda args %s) (make-list %d s3))))" % (rng.choice([10, 500]), call, rng.choice([100, 5000]))
-            else:
+            elif k == 5:
                 e = "(begin (deepcall 3000 (lambda () (calls-foreign 1 2 3))) %s)" % call
+            # the error is raised inside a procedure that a FOREIGN function calls back (a nested run of the VM)
+            elif k == 6:
+                e = "(sort (list 3 1 2) < (lambda (x) %s))" % call
+            elif k == 7:
+                e = "(deepcall %d (lambda () (sort (vector 5 4 3 2 1) (lambda (a b) %s))))" % (rng.choice([2, 300]), call)
+            else:
+                e = "(hash-table-walk ht69 (lambda (kk vv) %s))" % call
             cases.append(c)
             f.write(json.dumps(c) + "\t" + e + "\n")
     t = sc.file("nohandler.ndjson")
@@ -166,7 +175,8 @@ def nohandler_phase(chk, build, sc, space, rng):
     if not evs or evs[-1].get("e") != "Done":
         begun = [e.get("id") for e in evs if e.get("e") == "Begin"]
         running = open(script).read().splitlines()[begun[-1] - 1] if begun else "?"
-        shape = "wide-apply-after-foreign-call" if "calls-foreign" in running and "apply (lambda" in running else ("deep" if "deepcall" in running else "plain")
+        shape = ("callback-from-foreign" if ("(sort " in running or "hash-table-walk" in running) else
+                 "wide-apply-after-foreign-call" if "calls-foreign" in running and "apply (lambda" in running else ("deep" if "deepcall" in running else "plain"))
         key = "c01:nohandler:crash:%s" % shape
         chk.report(key, "embedding harness without a handler died (exit status %d) while evaluating %s" % (rc, running[:300]),
                    "nohandler_crash.json", {"key": key, "rc": rc, "running": running})
